@@ -314,17 +314,22 @@ def main():
         tuinfo[path] = {'ll': ll, 'bin': binp, 'models': [m[1] for m in mods]}
         cmds.append(('ir', path, cl)); cmds.append(('native', path, gx))
         for c, l in mods: cmds.append(('model', l, c))
-    broken = []
+    broken = []; failed_tus = set()
     with ThreadPoolExecutor(max_workers=a.jobs) as tp:
         futs = [(k, p, tp.submit(run_cmd, c)) for k, p, c in cmds]
         build_s = {}
         for k, p, f in futs:
             rc, out, dt = f.result(); build_s[(k, os.path.basename(p))] = round(dt, 2)
-            if rc != 0: broken.append('%s build of %s failed:\n%s' % (k, p, out[-3000:]))
-    if broken:
-        for b in broken: print('BROKEN:', b)
-        write_evidence(prop, tier, seed, t0, [], {}, broken, [], 0, {})
-        sys.exit(2)
+            if rc != 0: broken.append('%s build of %s failed:\n%s' % (k, p, out[-3000:])); failed_tus.add(p)
+    if failed_tus:
+        # a translation unit that does not build (or a model, which every unit needs) makes the check broken (exit 2) -
+        # unless the units that do build yield a natively confirmed VIOLATION, which is reported (exit 1) all the same
+        if any(p not in tuinfo for p in failed_tus): allh = []
+        allh = [h for h in allh if h.tu not in failed_tus]
+        if not allh:
+            for b in broken: print('BROKEN:', b)
+            write_evidence(prop, tier, seed, t0, [], {}, broken, [], 0, {})
+            sys.exit(2)
     def vg_build(tu):
         tags = tutags[tu]; names = sorted(set(h.name for h in allh if h.tu == tu))
         (cl, ll), (gx, binp) = build_tu(tu, tags, names, bdir)
